@@ -86,6 +86,7 @@ type runObs struct {
 	auths     []authObs
 	gens      []int // handler index of every Generate call
 	provision [][][]byte
+	provSeqs  []int
 	faults    []faultObs
 	result    error
 	escaped   any
@@ -137,7 +138,7 @@ func (w *world) registered(name string) [][]byte {
 	}
 	own := keys.Pub(u.KeyKind, userKeyLabel(name)).Marshal()
 	switch u.Dir {
-	case "pub", "bare", "both_same":
+	case "pub", "pub_commented", "bare", "both_same":
 		return [][]byte{own}
 	case "both_diff":
 		return [][]byte{own, keys.Pub(u.KeyKind, altKeyLabel(name)).Marshal()}
@@ -166,6 +167,10 @@ func (w *world) setupDir() error {
 		switch u.Dir {
 		case "pub":
 			err = os.WriteFile(pub, own, 0o644)
+		case "pub_commented":
+			// leading comment and blank lines, Windows line ends: still one registered key
+			body := "# registered key of " + u.Name + "\r\n\r\n" + strings.TrimRight(string(own), "\n") + "\r\n"
+			err = os.WriteFile(pub, []byte(body), 0o644)
 		case "bare":
 			err = os.WriteFile(bare, own, 0o644)
 		case "both_same":
@@ -410,6 +415,7 @@ func (k *recKey) AddCertsToAgent(certs []ssh.PublicKey, comments []string) error
 		blobs = append(blobs, c.Marshal())
 	}
 	k.w.cur.provision = append(k.w.cur.provision, blobs)
+	k.w.cur.provSeqs = append(k.w.cur.provSeqs, k.w.next())
 	err := k.inner.AddCertsToAgent(certs, comments)
 	k.w.phase = "sign"
 	return err
@@ -419,6 +425,7 @@ type stubHandler struct {
 	idx     int
 	auth    string
 	ncsrs   int
+	nkeys   int
 	panicIn string
 	w       *world
 }
@@ -449,15 +456,19 @@ func (s *stubHandler) Authenticate(*csr.ReqParam) error {
 
 func (s *stubHandler) Generate(*csr.ReqParam) ([]csr.AgentKey, error) {
 	s.maybePanic("Generate")
-	k := &stubKey{h: s}
-	for i := 0; i < s.ncsrs; i++ {
-		k.csrs = append(k.csrs, &proto.SSHCertificateSigningRequest{
-			KeyMeta: &proto.KeyMeta{Identifier: "stub-slot"}, KeyId: fmt.Sprintf("stub-csr-%d-%d", s.idx, i),
-			Principals: []string{"stub"}, Validity: 60,
-			PublicKey: string(ssh.MarshalAuthorizedKey(keys.Pub(keys.KindEd, "stubkey"))),
-		})
+	var out []csr.AgentKey
+	for kk := 0; kk < max(1, s.nkeys); kk++ {
+		k := &stubKey{h: s}
+		for i := 0; i < s.ncsrs; i++ {
+			k.csrs = append(k.csrs, &proto.SSHCertificateSigningRequest{
+				KeyMeta: &proto.KeyMeta{Identifier: "stub-slot"}, KeyId: fmt.Sprintf("stub-csr-%d-%d-%d", s.idx, kk, i),
+				Principals: []string{"stub"}, Validity: 60,
+				PublicKey: string(ssh.MarshalAuthorizedKey(keys.Pub(keys.KindEd, "stubkey"))),
+			})
+		}
+		out = append(out, k)
 	}
-	return []csr.AgentKey{k}, nil
+	return out, nil
 }
 
 type stubKey struct {
@@ -538,7 +549,7 @@ func (c *scriptedCA) Sign(ctx context.Context, req *proto.SSHCertificateSigningR
 
 func buildCommand(run *GRun) string {
 	if run.Legacy {
-		cmd := fmt.Sprintf("IFVer=6 SSHClientVersion=8.1 req=%s@%s HardKey=%v", run.ReqUser, run.ReqHost, run.HardKey)
+		cmd := fmt.Sprintf("IFVer=6 SSHClientVersion=%s req=%s@%s HardKey=%v", sshVer(run), run.ReqUser, run.ReqHost, run.HardKey)
 		if run.Touch2SSH {
 			cmd += " Touch2SSH=true"
 		}
@@ -550,7 +561,7 @@ func buildCommand(run *GRun) string {
 		}
 		return cmd
 	}
-	m := map[string]any{"ifVer": 7, "username": run.ReqUser, "hostname": run.ReqHost, "sshClientVersion": "8.1", "hardKey": run.HardKey}
+	m := map[string]any{"ifVer": 7, "username": run.ReqUser, "hostname": run.ReqHost, "sshClientVersion": sshVer(run), "hardKey": run.HardKey}
 	if run.CAAlgo >= 0 {
 		m["caPubKeyAlgo"] = run.CAAlgo
 	}
@@ -568,6 +579,13 @@ func buildCommand(run *GRun) string {
 	}
 	b, _ := json.Marshal(m)
 	return string(b)
+}
+
+func sshVer(run *GRun) string {
+	if run.SSHVer != "" {
+		return run.SSHVer
+	}
+	return "8.1"
 }
 
 // extraFault is the single additional fault of a C04 placement.
@@ -652,7 +670,7 @@ func (w *world) doRun(run *GRun, extra extraFault) *runObs {
 			}
 			handlers = append(handlers, &recHandler{inner: rh, idx: i, regular: true, w: w})
 		} else {
-			st := &stubHandler{idx: i, auth: strings.TrimPrefix(h, "stub:"), ncsrs: run.StubCSRs, panicIn: selectedStubPanic, w: w}
+			st := &stubHandler{idx: i, auth: strings.TrimPrefix(h, "stub:"), ncsrs: run.StubCSRs, nkeys: run.StubKeys, panicIn: selectedStubPanic, w: w}
 			handlers = append(handlers, &recHandler{inner: st, idx: i, w: w})
 		}
 	}
